@@ -125,7 +125,7 @@ Print Assumptions C11_powf_negative_base_panics.
 
 (** ---- open finding directed_faithful: as-is accuracy and refutation of the one-ulp claim *)
 Theorem C11_loose_means : forall B p t r,
-  Loose B p t r <-> exists E, (bpw B E <= Rabs r)%R /\ (Rabs (r - t) < bpw B (E - p + 2))%R.
+  Loose B p t r <-> exists E, (bpw B E <= Rabs r)%R /\ (Rabs (r - t) < 2 * bpw B (E - p + 1))%R.
 Proof. intros. apply iff_refl. Qed.
 Print Assumptions C11_loose_means.
 
